@@ -1,7 +1,10 @@
 package main
 
 import (
+	"fmt"
+	"go/ast"
 	"go/token"
+	"go/types"
 	"regexp"
 	"strings"
 
@@ -359,5 +362,99 @@ func ruleLEXCODEC(c *Ctx) {
 	}
 	if nAcc < 2 || nBt < 1 {
 		c.add(rule, "count:scan", 0, CountDropped, true, "Tables.Scan: %d accept decodes and %d checkpoint decodes found (2 and 1 confirmed by hand)", nAcc, nBt)
+	}
+}
+
+// PAIR(checkpoint): recording a backtracking checkpoint always records both what was accepted
+// and where: in Tables.Scan (action, size), in generated lexers (backupRule, backupOffset and,
+// when keywords are hashed, backupHash).
+func ruleCHECKPOINTPAIR(c *Ctx) {
+	const rule = "PAIR(checkpoint)"
+	type spec struct {
+		pkg, fn string
+		lead    string   // variable assigned from the checkpoint table
+		with    []string // variables that must be assigned in the same block
+		opt     []string // required only if the function declares them
+	}
+	specs := []spec{{"lex", "Tables.Scan", "action", []string{"size"}, nil}}
+	for _, rel := range lexerPkgs {
+		specs = append(specs, spec{rel, "Lexer.Next", "backupRule", []string{"backupOffset"}, []string{"backupHash"}})
+	}
+	n := 0
+	for _, s := range specs {
+		p, fd := c.FuncDecl(s.pkg, s.fn)
+		if fd == nil {
+			continue
+		}
+		declared := map[string]bool{}
+		ast.Inspect(fd, func(nd ast.Node) bool {
+			if id, ok := nd.(*ast.Ident); ok && p.TypesInfo.Defs[id] != nil {
+				declared[id.Name] = true
+			}
+			return true
+		})
+		ord := 0
+		ast.Inspect(fd.Body, func(nd ast.Node) bool {
+			blk, ok := nd.(*ast.BlockStmt)
+			if !ok {
+				return true
+			}
+			assigned := map[string]bool{}
+			var leadPos token.Pos
+			for _, st := range blk.List {
+				as, ok := st.(*ast.AssignStmt)
+				if !ok {
+					continue
+				}
+				for i, l := range as.Lhs {
+					id, ok := l.(*ast.Ident)
+					if !ok {
+						continue
+					}
+					assigned[id.Name] = true
+					if id.Name == s.lead && as.Tok == token.ASSIGN {
+						// from the checkpoint table?
+						var rhs ast.Expr
+						if len(as.Rhs) == len(as.Lhs) {
+							rhs = as.Rhs[i]
+						} else if len(as.Rhs) > 0 {
+							rhs = as.Rhs[0]
+						}
+						if rhs != nil {
+							t := types.ExprString(rhs)
+							if strings.Contains(t, "Backtrack") || strings.Contains(t, "bt.") || strings.Contains(t, "tmBacktracking") {
+								leadPos = as.Pos()
+							}
+						}
+					}
+				}
+			}
+			if leadPos == token.NoPos {
+				return true
+			}
+			n++
+			ord++
+			key := fmt.Sprintf("%s.%s:checkpoint#%d", s.pkg, s.fn, ord)
+			var missing []string
+			for _, w := range s.with {
+				if !assigned[w] {
+					missing = append(missing, w)
+				}
+			}
+			for _, w := range s.opt {
+				if declared[w] && !assigned[w] {
+					missing = append(missing, w)
+				}
+			}
+			if len(missing) > 0 {
+				c.Bad(rule, key, leadPos, "a checkpoint records %s but not %v in the same step: a later fallback pairs the new rule with a stale position (or hash)", s.lead, missing)
+			} else {
+				c.Ok(rule, key, leadPos, "%s is recorded together with %v", s.lead, append(append([]string{}, s.with...), s.opt...))
+			}
+			return true
+		})
+	}
+	if n < 6 {
+		c.add(rule, "count:", token.NoPos, CountDropped, true, "only %d checkpoint recording sites found (Scan: 2, generated lexers: 2 each where backtracking is used)", n)
 	}
 }
